@@ -69,6 +69,7 @@ class Unit:
         self.outside = []
         self.features = []
         self.rlimit = None
+        self.defines = {}
 
 
 def parse_spec(path, seen=None):
@@ -136,6 +137,9 @@ def _parse_into(unit, path, seen, assumed):
         if tag == '@unit':
             if unit.name is None:
                 unit.name = rest_nc
+        elif tag == '@define':
+            m = re.match(r'(\w+)\s*=\s*(.*)$', rest)
+            unit.defines[m.group(1)] = m.group(2)
         elif tag == '@flags':
             unit.flags += rest_nc.split()
         elif tag == '@include':
@@ -218,9 +222,54 @@ def _parse_into(unit, path, seen, assumed):
     flush()
 
 
+def expand_macros(text, defines, depth=0):
+    """Textual sidecar macros: `$name(arg1, arg2)` -> body with $1, $2 replaced (arguments parenthesised)."""
+    if depth > 8:
+        raise SpecError('macro expansion too deep')
+    out = []
+    i = 0
+    while True:
+        m = re.compile(r'\$([A-Za-z_]\w*)\(').search(text, i)
+        if not m:
+            out.append(text[i:])
+            break
+        name = m.group(1)
+        if name not in defines:
+            raise SpecError('unknown sidecar macro $%s' % name)
+        out.append(text[i:m.start()])
+        # parse balanced args
+        j = m.end()
+        d = 1
+        args = []
+        cur = j
+        while d > 0:
+            c = text[j]
+            if c in '([{':
+                d += 1
+            elif c in ')]}':
+                d -= 1
+                if d == 0:
+                    args.append(text[cur:j].strip())
+                    break
+            elif c == ',' and d == 1:
+                args.append(text[cur:j].strip())
+                cur = j + 1
+            j += 1
+        body = defines[name]
+        for k, a in enumerate(args, 1):
+            a2 = expand_macros(a, defines, depth + 1)
+            body = body.replace('$%d' % k, a2 if re.match(r'^[\w.()@]+$', a2) and not a2.startswith('&') and not a2.startswith('*') else '(' + a2 + ')')
+        out.append('(' + expand_macros(body, defines, depth + 1) + ')')
+        i = j + 1
+    return ''.join(out)
+
+
 # --------------------------------------------------------------------------
 # piece list
 # --------------------------------------------------------------------------
+
+DEFINES = {}
+
 
 class Pieces:
     """Ordered pieces for one extracted source span [start,end)."""
@@ -233,7 +282,7 @@ class Pieces:
         self.edits = []     # (start, end, text, kind, rule, note)
 
     def insert(self, pos, text, note=''):
-        self.edits.append((pos, pos, text, 'insert', '', note))
+        self.edits.append((pos, pos, expand_macros(text, DEFINES), 'insert', '', note))
 
     def rewrite(self, s, e, text, rule, note=''):
         self.edits.append((s, e, text, 'rewrite', rule, note))
@@ -672,6 +721,14 @@ class Extractor:
                 else:
                     le = src.line_end(fe_)
                     p.insert(le, txt + '\n')
+            elif a[0] == 'tail':
+                # R14: bind the tail expression (`let verif_tail = <tail>; <ghost> verif_tail`).  Pure insertions:
+                # evaluation order and result are those of the original tail expression.
+                fs_, fe_ = find_fragment(src, body_s, body_e, a[1])
+                p.insert(fs_, 'let verif_tail = ')
+                p.insert(body_e, ';\n' + txt + '\nverif_tail\n')
+                self.log.append({'kind': 'insert-exec', 'rule': 'R14', 'file': src.path, 'line': src.line_of(fs_),
+                                 'original': '', 'replacement': 'let verif_tail = <tail expression>; <ghost>; verif_tail', 'note': 'tail expression let-bound so that ghost code can follow the call'})
             elif a[0] in ('before-inline', 'after-inline'):
                 fs_, fe_ = find_fragment(src, body_s, body_e, a[1])
                 p.insert(fs_ if a[0] == 'before-inline' else fe_, ' ' + txt + ' ')
@@ -680,6 +737,18 @@ class Extractor:
         # regex rewrite rules on body
         body = src.text[body_s:body_e]
         for rule in sorted(fs.rewrites):
+            m16 = re.match(r'R16\((.+)\)$', rule)
+            if m16:
+                # `&mut V[range]` on a Vec V  ->  `&mut V.as_mut_slice()[range]` (std defines the former as the latter;
+                # vstd specifies IndexMut<Range*> for slices and arrays only)
+                rx = re.compile(r'&mut\s+' + re.escape(m16.group(1)) + r'(?=\[)')
+                fired = False
+                for m in rx.finditer(body):
+                    p.rewrite(body_s + m.start(), body_s + m.end(), '&mut ' + m16.group(1) + '.as_mut_slice()', 'R16')
+                    fired = True
+                if not fired:
+                    raise AnchorLost('%s: rewrite rule %s listed but did not fire' % (what, rule))
+                continue
             if rule in REWRITE_RULES:
                 fired = False
                 for rx, rep in REWRITE_RULES[rule]:
@@ -792,7 +861,7 @@ class Extractor:
         self.record_span(src, it.attr_start, sig[it.block_open].end, hp.what)
         out = [htext, '\n']
         if b.extra.strip():
-            out.append(b.extra)
+            out.append(expand_macros(b.extra, DEFINES))
             out.append('\n')
         members = block_items(src, it)
         by_name = {}
@@ -848,6 +917,8 @@ class Extractor:
 
 def generate(spec_path, repo, features, known_off=False, canary=None):
     unit = parse_spec(spec_path)
+    DEFINES.clear()
+    DEFINES.update(unit.defines)
     ex = Extractor(repo, features, known_off, canary)
     outside = []
     for file, names in unit.macros:
@@ -862,7 +933,7 @@ def generate(spec_path, repo, features, known_off=False, canary=None):
             body.append('// ---- prelude %s ----\n' % e[1] + open(path).read() + '\n')
             preludes.append(e[1])
         elif e[0] == 'raw':
-            body.append(e[1] + '\n')
+            body.append(expand_macros(e[1], DEFINES) + '\n')
         elif e[0] == 'const':
             body.append(ex.consts(e[1], e[2]))
         elif e[0] == 'item':
